@@ -51,7 +51,7 @@ class _PredicateTransformer(Transformer):
         return always_true_p
 
     def variable(self, item) -> Predicate:
-        (name,) = item[0]
+        name = str(item[0])
         return NamedPredicate(name=name)
 
     def xor_expression(self, items) -> Predicate:
